@@ -475,9 +475,9 @@ func buildHostile(hc hostileCase) ([]byte, string, bool) {
 		}
 	case "DeepFirstChain", "LongNextChain":
 		// a valid but extreme outline appended below / after the last top-level item
-		n := 3000 + rng.IntN(3000)
+		n := 1000 + rng.IntN(2000)
 		if hc.Attack == "LongNextChain" {
-			n = 4000 + rng.IntN(4000)
+			n = 1000 + rng.IntN(1000)
 		}
 		page := ref(o.PageObjs[0])
 		last, ok := get(o.OutlineRoot, "Last")
